@@ -132,7 +132,7 @@ PROPS.update({
         "assumptions": ["usize/isize are 64-bit"],
     },
     "C05": {
-        "runs": [("C05", "std", "normal")],
+        "runs": [("C05", "std", "normal"), ("C05", "nostd", "normal")],
         "rule": "tag 50: same conversion inputs as C04 with exact result values; tag 42: parsing alphabet as C04; tag 51: Display of every value of every type (formatted into a stack buffer) and parse-back; tag 52: equality/ordering/hash-equality for all pairs of the <=7-bit types and boundaries+neighbours+seeded pairs for U14; tag 43: MIN/MAX/Default",
         "exhaustive": {},
         "assumptions": ["usize/isize are 64-bit"],
